@@ -500,3 +500,257 @@ def c10(tr, acc, case):
         acc.hit("waiter_event_eval")
         if n > 1:
             acc.violation({"mech": "waiter_event_published_twice"}, f"waiter_event {uid} published {n} times", case)
+
+
+# ------------------------------------------------------------------ C05 / C06
+EPS = 1e-6
+
+
+def _policy_parts(pol):
+    if pol is None:
+        return None
+    if "legacy" in pol:
+        if pol["legacy"] == "constant":
+            return {"retry": None, "stop": {"k": "attempt", "n": pol["n"]}, "wait": {"k": "fixed", "w": pol["delay"]}}
+        return {"retry": None, "stop": {"k": "attempt", "n": pol["n"]},
+                "wait": {"k": "exp", "mult": pol["initial"], "base": pol["mult"], "max": pol["max"], "min": 0}}
+    return pol
+
+
+def doc_delay(ast, k):
+    """documented delay of the k-th retry (k=1,2,..), tenacity semantics (attempt_number = k)."""
+    kind = ast["k"]
+    if kind == "fixed":
+        return float(ast["w"])
+    if kind == "none":
+        return 0.0
+    if kind == "exp":
+        try:
+            v = ast["mult"] * float(ast["base"]) ** (k - 1)
+        except OverflowError:
+            v = float("inf")
+        return max(max(0.0, ast["min"]), min(v, ast["max"]))
+    if kind == "inc":
+        return max(0.0, min(ast["start"] + ast["inc"] * (k - 1), ast["max"]))
+    if kind == "chain":
+        idx = min(max(k, 1), len(ast["parts"])) - 1
+        return doc_delay(ast["parts"][idx], k)
+    if kind in ("combine", "plus", "sum"):
+        return sum(doc_delay(p, k) for p in ast["parts"])
+    raise ValueError(kind)
+
+
+def c05(tr, acc, case):
+    from vf import policy, programs
+
+    spec = tr.spec
+    sp = next(s for s in spec["steps"] if s["name"] == "work")
+    pol = _policy_parts(sp.get("retry"))
+    bodies = [b for b in tr.bodies() if b["step"] == "work"]
+    if not bodies or any(b["t1"] is None for b in bodies):
+        acc.inconclusive.append("retry family: step body never ran / never exited")
+        return
+    acc.hit("retry_run")
+    s1 = bodies[0]["t0"]
+    # --- model: how many executions should there be
+    expected = None
+    for i, b in enumerate(bodies, start=1):
+        failed = b["how"].startswith("raise:")
+        if not failed:
+            expected = i
+            break
+        etype, msg = b["how"][6:], f"work|{b['v']}|{b['att']}"
+        exc = programs.EXC[etype](msg)
+        retryable = True if (pol is None or pol.get("retry") is None) else policy.model_retry(pol["retry"], exc)
+        if pol is None:
+            retryable = False
+        elapsed = b["t1"] - s1
+        wait_fixed = pol["wait"]["w"] if pol and pol["wait"]["k"] == "fixed" else 0.0
+        stop = True if pol is None else policy.model_stop(pol["stop"], i, elapsed, wait_fixed)
+        acc.hit("retry_decision_eval")
+        if pol is not None and pol["stop"]["k"] == "delay":
+            acc.hit("stop_after_delay_eval")
+        if not retryable:
+            acc.hit("non_retryable_eval")
+        if not retryable or stop:
+            expected = i
+            break
+    if expected is None:
+        expected = len(bodies) + 1  # model says: keep going
+    if len(bodies) != expected:
+        why = "stop_after_delay" if pol and _mentions(pol["stop"], "delay") else "attempts"
+        acc.violation({"mech": "execution_count_mismatch", "policy_uses_delay_stop": bool(pol and _mentions(pol["stop"], "delay")),
+                       "direction": "fewer" if len(bodies) < expected else "more"},
+                      f"step executed {len(bodies)} times, retry-policy model (observed virtual times) says {expected} ({why}); policy={sp.get('retry')}", case)
+    # --- retry_info numbering and last exception
+    for i, b in enumerate(bodies):
+        acc.hit("retry_info_eval")
+        if b["att"] != i:
+            acc.violation({"mech": "retry_number_sequence"}, f"execution #{i + 1} saw retry_number={b['att']}", case)
+        want = None if i == 0 else (bodies[i - 1]["how"][6:] + ":" + f"work|{bodies[i - 1]['v']}|{bodies[i - 1]['att']}")
+        if b["lastexc"] != want:
+            acc.violation({"mech": "retry_info_last_exception"}, f"execution #{i + 1} saw last_exception={b['lastexc']!r}, previous attempt raised {want!r}", case)
+        if i > 0 and b["elapsed"] is not None and abs(b["elapsed"] - (b["t0"] - s1)) > EPS:
+            acc.note("retry_info_elapsed_seconds_differs_from_real")
+    # --- reported attempts / elapsed in failure events
+    last = bodies[-1]
+    real_elapsed = (last["t1"] - s1) if last["t1"] is not None else None
+    reports = []
+    for e in tr.stream:
+        if e["type"] == "WorkflowFailedEvent" and e["failed"]["step"] == "work":
+            reports.append(("WorkflowFailedEvent", e["failed"]["attempts"], e["failed"]["elapsed"]))
+    for b in tr.bodies():
+        if b["failed"] and b["failed"]["step_name"] == "work":
+            reports.append(("StepFailedEvent", b["failed"]["attempts"], b["failed"]["elapsed"]))
+    for name, att, el in reports:
+        acc.hit("failure_report_eval")
+        if att != len(bodies):
+            acc.violation({"mech": "reported_attempts_mismatch", "event": name}, f"{name}.attempts={att} but the step executed {len(bodies)} times", case)
+        if real_elapsed is not None and abs(el - real_elapsed) > EPS:
+            acc.violation({"mech": "reported_elapsed_mismatch", "event": name, "huge": bool(abs(el) > 1e6)},
+                          f"{name}.elapsed_seconds={el} but {real_elapsed} (virtual) seconds really elapsed from first attempt to last failure", case)
+
+
+def _mentions(ast, kind):
+    if ast["k"] == kind:
+        return True
+    return any(_mentions(p, kind) for p in ast.get("parts", []))
+
+
+def _deterministic(ast):
+    return ast["k"] in ("fixed", "none", "exp", "inc") or (ast["k"] in ("chain", "combine", "plus", "sum") and all(_deterministic(p) for p in ast["parts"]))
+
+
+def c06(tr, acc, case):
+    spec = tr.spec
+    sp = next(s for s in spec["steps"] if s["name"] == "work")
+    pol = _policy_parts(sp.get("retry"))
+    if pol is None:
+        return
+    bodies = [b for b in tr.bodies() if b["step"] == "work"]
+    for k in range(1, len(bodies)):
+        prev, nxt = bodies[k - 1], bodies[k]
+        if prev["t1"] is None:
+            continue
+        gap = nxt["t0"] - prev["t1"]
+        doc = doc_delay(pol["wait"], k)
+        acc.hit("retry_gap_eval")
+        acc.hit("gap_kind_" + pol["wait"]["k"])
+        shifted = doc_delay(pol["wait"], k + 1)  # what a strategy indexed one attempt too far would give
+        shift = abs(gap - shifted) <= EPS and abs(shifted - doc) > EPS
+        if gap < doc - EPS:
+            acc.violation({"mech": "retry_started_earlier_than_documented", "index_shift": shift},
+                          f"retry #{k} started {gap}s after failure #{k}; wait strategy documents {doc}s (tenacity semantics); wait={pol['wait']}", case)
+        elif k == 1 and _deterministic(pol["wait"]) and abs(gap - doc) > EPS:
+            acc.violation({"mech": "first_retry_delay_not_initial", "index_shift": shift},
+                          f"first retry waited {gap}s; the documented first delay is {doc}s; wait={pol['wait']}", case)
+        elif _deterministic(pol["wait"]) and abs(gap - doc) > EPS:
+            acc.note("later_retry_delay_differs_from_tenacity_index")
+
+
+# ------------------------------------------------------------------ C08
+def handler_layout(spec):
+    hs = {s["name"]: s["handler"] for s in spec["steps"] if s.get("handler") is not None}
+    owner = {}
+    wildcard = next((n for n, h in hs.items() if h.get("for") is None), None)
+    for s in spec["steps"]:
+        if s.get("handler") is not None:
+            continue
+        scoped = next((n for n, h in hs.items() if h.get("for") is not None and s["name"] in h["for"]), None)
+        owner[s["name"]] = scoped or wildcard
+    return hs, owner
+
+
+def _budget_used(v, h):
+    return str(v).count(f">{h}.")
+
+
+def c08_facts(tr):
+    """Observable routing facts of a run (used for the model check and the validation on/off comparison)."""
+    entries = sorted((b["step"], b["failed"]["step_name"], str(b["failed"]["input_uid"]), b["failed"]["exc"], b["failed"]["attempts"])
+                     for b in tr.bodies() if b.get("failed"))
+    fails = [e["failed"] for e in tr.stream if e["type"] == "WorkflowFailedEvent"]
+    return {"handler_entries": entries, "outcome": tr.outcome, "workflow_failed": [(f["step"], f["exc"], f["attempts"]) for f in fails]}
+
+
+def c08(tr, acc, case):
+    spec = tr.spec
+    hs, owner = handler_layout(spec)
+    bodies = tr.bodies()
+    by_key = defaultdict(list)
+    for b in bodies:
+        by_key[(b["step"], b["uid"])].append(b)
+    # the run's own retry budgets: a failure is final when no later attempt of the same (step, uid) exists
+    finals = []
+    for (s, uid), bs in by_key.items():
+        bs.sort(key=lambda b: b["att"])
+        last = bs[-1]
+        if last["how"].startswith("raise:"):
+            finals.append(last)
+    fatal = set()
+    for f in finals:
+        s = f["step"]
+        acc.hit("exhausted_failure")
+        msg = f"{f['how'][6:]}:{s}|{f['v']}|{f['att']}"
+        if s in hs:
+            fatal.add((s, msg))  # a handler step failing is never handled
+            acc.hit("handler_step_failed")
+            continue
+        h = owner.get(s)
+        used = _budget_used(f["v"], h) if h else 0
+        entered = [b for b in bodies if b.get("failed") and b["failed"]["step_name"] == s and b["failed"]["input_uid"] == f["uid"]]
+        if h is not None and used < hs[h]["max"]:
+            acc.hit("route_to_handler_expected")
+            acc.hit("owner_scoped" if hs[h].get("for") is not None else "owner_wildcard")
+            if used > 0:
+                acc.hit("lineage_reentered")
+            wrong = [b for b in entered if b["step"] != h]
+            if wrong:
+                acc.violation({"mech": "failure_routed_to_wrong_handler"}, f"failure of {s} went to {wrong[0]['step']}, owner is {h}", case)
+            ok = [b for b in entered if b["step"] == h]
+            if len(ok) > 1:
+                acc.violation({"mech": "handler_entered_twice_for_one_failure"}, f"{h} entered {len(ok)} times for failure of {s} uid={f['uid']}", case)
+            if not ok:
+                # legitimate only if the run ended first for another reason
+                o = tr.outcome
+                wf = [e["failed"] for e in tr.stream if e["type"] == "WorkflowFailedEvent"]
+                if any(w["step"] == s and w["exc"] == msg for w in wf):
+                    acc.violation({"mech": "handler_not_entered_budget_left", "validation_disabled": bool(spec.get("disable_validation"))},
+                                  f"{s} exhausted retries (uid={f['uid']}), owner {h} has budget {used}/{hs[h]['max']} but the run failed with the step's exception", case)
+                elif o is None and tr.quiescent:
+                    acc.violation({"mech": "handler_not_entered_run_stuck"}, f"{s} exhausted retries, owner {h} never entered, run quiescent", case)
+            for b in ok:
+                fd = b["failed"]
+                if fd["exc"] != msg:
+                    acc.violation({"mech": "step_failed_event_wrong_exception"}, f"StepFailedEvent carries {fd['exc']!r}, original {msg!r}", case)
+        else:
+            acc.hit("budget_exhausted_or_no_owner")
+            if entered:
+                acc.violation({"mech": "handler_entered_beyond_budget_or_without_ownership", "has_owner": h is not None},
+                              f"failure of {s} (lineage used {used}/{hs[h]['max'] if h else 0} of {h}) still entered {entered[0]['step']}", case)
+            fatal.add((s, msg))
+    # every handler entry must be for a step it owns, within budget, never for a handler step
+    for b in bodies:
+        if not b.get("failed"):
+            continue
+        acc.hit("handler_entry_eval")
+        src = b["failed"]["step_name"]
+        if src in hs:
+            acc.violation({"mech": "handler_entered_for_handler_step"}, f"{b['step']} entered for failure of handler step {src}", case)
+        elif owner.get(src) != b["step"]:
+            acc.violation({"mech": "failure_routed_to_wrong_handler"}, f"{b['step']} entered for {src} whose owner is {owner.get(src)}", case)
+        used = _budget_used(b["v"], b["step"])
+        if used >= hs[b["step"]]["max"]:
+            acc.violation({"mech": "handler_entered_beyond_budget_or_without_ownership", "has_owner": True},
+                          f"{b['step']} entered with lineage count {used} >= max_recoveries {hs[b['step']]['max']}", case)
+    # a failed run must fail with one of the fatal (original) exceptions and name that step
+    if outcome_kind(tr) == "failed":
+        acc.hit("failed_run_eval")
+        wf = [e["failed"] for e in tr.stream if e["type"] == "WorkflowFailedEvent"]
+        o = tr.outcome
+        if wf:
+            key = (wf[-1]["step"], wf[-1]["exc"])
+            if key not in fatal:
+                acc.violation({"mech": "run_failed_for_recoverable_or_unknown_failure"}, f"WorkflowFailedEvent {key} is not among the unrecoverable failures {sorted(fatal)}", case)
+            if f"{o['type']}:{o['msg']}" != wf[-1]["exc"]:
+                acc.violation({"mech": "run_exception_not_original"}, f"handler raised {o['type']}:{o['msg']} but WorkflowFailedEvent says {wf[-1]['exc']}", case)
